@@ -1,6 +1,8 @@
 (* Property C18 — invalid configurations are rejected up front; accepted ones are valid;
-   the defaults filled in by setup_config are a fixed point; the route by which a configuration
-   reaches setup_config (fresh input file / restart file) makes no difference.
+   the defaults filled in by setup_config are a fixed point and are filled in BEFORE the
+   validation (which therefore sees the engine "engine0" that quantis substitutes for [0-]); the
+   route by which a configuration reaches setup_config (fresh input file / restart file) makes
+   no difference.
    This file only restates the results proved in proofs/ConfigP.v (model: model/ConfigM.v,
    the code with proposed_fixes/C18_check_config.diff applied), so that the statements cannot
    be weakened silently; each is followed by Print Assumptions.  All statements are
@@ -98,13 +100,22 @@ Theorem C18_normalise_engines : forall c,
 Proof. exact normalise_engines. Qed.
 Print Assumptions C18_normalise_engines.
 
-(* the whole of setup_config: what it returns is normalised (re-reading it changes nothing),
-   accepted => valid, invalid => configuration error, never an IndexError *)
+(* the whole of setup_config.  VALIDATION FOLLOWS NORMALISATION: the model composes the six
+   default-filling statements of setup_config in program order ([normalise] = step_accept_all o
+   step_engine0 o step_lm1 o step_quantis o step_seed o step_engines) and calls check_config last,
+   on their result - r = check_config (normalise c), never check_config of the file as read or
+   of a half-normalised configuration.  What it returns is normalised (re-reading it changes
+   nothing), accepted => valid, invalid => configuration error, never an IndexError; and the
+   engine that statement 5 invents is itself validated: under quantis without an engine list of
+   its own, an accepted configuration gives ["engine0"] to [0-] and HAS a table [engine0]. *)
 Theorem C18_setup_config : forall c,
   let '(c', r) := setup_config c in
-  c' = normalise c /\ normalise c' = c' /\
+  c' = normalise c /\ r = check_config (normalise c) /\ normalise c' = c' /\
   (r = Ok -> valid c') /\ (~ valid c' -> exists k, r = ConfigError k /\ err_holds c' k) /\
-  r <> Crash IndexError.
+  r <> Crash IndexError /\
+  (r = Ok -> quantis_val c = true -> has_ens_engs c = false ->
+   ens_engs c' = Some ([name_engine0] :: map (fun _ => [name_engine]) (tl (interfaces c))) /\
+   In name_engine0 (map fst (sections c))).
 Proof. exact setup_config_spec. Qed.
 Print Assumptions C18_setup_config.
 
@@ -112,12 +123,16 @@ Print Assumptions C18_setup_config.
    the program wrote, edited or not) at any step, finished or not, with or without its paths -
    is no excuse.  [setup_from steps cur c]: cur = None for a file without a [current] table,
    Some k for one with it; the answer None stands for "setup_config returns None".
-   Whenever there is an answer it is the normalised configuration, checked: *)
+   Whenever there is an answer it is the normalised configuration, and the verdict is that of
+   check_config on the normalised configuration: *)
 Theorem C18_setup_any_route : forall steps cur c c' r,
   setup_from steps cur c = Some (c', r) ->
-  c' = normalise c /\ normalise c' = c' /\
+  c' = normalise c /\ r = check_config (normalise c) /\ normalise c' = c' /\
   (r = Ok -> valid c') /\ (~ valid c' -> exists k, r = ConfigError k /\ err_holds c' k) /\
-  r <> Crash IndexError.
+  r <> Crash IndexError /\
+  (r = Ok -> quantis_val c = true -> has_ens_engs c = false ->
+   ens_engs c' = Some ([name_engine0] :: map (fun _ => [name_engine]) (tl (interfaces c))) /\
+   In name_engine0 (map fst (sections c))).
 Proof. exact setup_any_route. Qed.
 Print Assumptions C18_setup_any_route.
 
@@ -218,4 +233,37 @@ Proof.
   cbn zeta. split; [eexists; vm_compute; reflexivity|].
   split; [vm_compute; reflexivity|].
   repeat split; eexists; vm_compute; reflexivity.
+Qed.
+
+(* ... and the order of normalisation and validation matters.  quantis = true, no
+   ensemble_engines, a table [engine] but none called [engine0]: the normalisation gives [0-] the
+   engine "engine0", the configuration is invalid (undefined engine) and setup_config - by either
+   route - answers with that configuration error; with a table [engine0] it is accepted; an
+   explicit engine list that does not use "engine0" needs no such table.  A setup_config that
+   validated BEFORE statements 2-6 (check_config (step_engines c): the engine list still
+   [["engine"], ...]) would accept the invalid configuration - this variant is NOT the model, it
+   is refuted here. *)
+Definition ex_engine0 : name * section := (name_engine0, mkS (Some OtherClass) (Some 1%Z) 7%Z).
+Definition ex_quantis (ee : option (list (list name))) (secs : list (name * section)) : config :=
+  mkC [0; 1; 2] 1%Z [Sh; Sh; Sh] None (Some true) None None None ee secs.
+Definition setup_config_checked_early (c : config) : config * result :=
+  (normalise c, check_config (step_engines c)).
+
+Example C18_example_order :
+  let bad := ex_quantis None ex_sections in
+  setup_config bad = (normalise bad, ConfigError (EEngineUndef name_engine0)) /\
+  setup_from 10 None bad = Some (normalise bad, ConfigError (EEngineUndef name_engine0)) /\
+  setup_from 10 (Some (mkCur 4 true)) bad
+    = Some (normalise bad, ConfigError (EEngineUndef name_engine0)) /\
+  ~ valid (normalise bad) /\
+  snd (setup_config_checked_early bad) = Ok /\
+  snd (setup_config (ex_quantis None (ex_engine0 :: ex_sections))) = Ok /\
+  snd (setup_config (ex_quantis (Some [[name_engine]; [name_engine]; [name_engine]]) ex_sections)) = Ok /\
+  snd (setup_config (ex_quantis (Some [[name_engine0]; [name_engine]; [name_engine]]) ex_sections))
+    = ConfigError (EEngineUndef name_engine0) /\
+  (* the empty list counts as "no engine list" *)
+  snd (setup_config (ex_quantis (Some []) ex_sections)) = ConfigError (EEngineUndef name_engine0).
+Proof.
+  cbn zeta. repeat split; try (vm_compute; reflexivity).
+  intro V. apply validb_spec in V. vm_compute in V. discriminate.
 Qed.
